@@ -90,9 +90,14 @@ def respell(rng, text):
     return "\n".join(out)
 
 
-def gen(tier, rng, harness=None):
+def gen(tier, rng, harness=None, driver=None):
     lines = []
     n = 120 if tier == "quick" else 6000
+    # M-DI: constructed specialised metadata nodes are fixpoints of print -> parse -> print (`di.rt`); parsed nodes (fields in any order, repeated, at omitted
+    # values) reach the canonical text in one step (`di.parse` against the proved translation)
+    if driver is not None:
+        from . import pC01
+        lines += pC01.di_stream(rng, harness, driver, 60 if tier == "quick" else 2000)
     for _ in range(n):
         ts, gs = coregen.gen_core(rng)
         a = coregen.args(ts, gs)
